@@ -98,12 +98,25 @@ template <class S> struct Ops {
     bool wild = g_allow_wild && R->below(5) == 0 && !(in.sol == "sod_1d" && !kExceptions);
     S v = draw_value<S>(in.sc0[n], wild);
     hist("masa_set_param<" + P + ">(\"" + n + "\"," + jnum((long double)v) + ") on " + m.sel + ":" + in.sol);
+    bool had_rec = !m.recent[m.sel].empty();
+    EvalRec last_rec; if (had_rec) last_rec = m.recent[m.sel].back();
     CAP.begin(); masa_set_param<S>(n, v); std::string out = CAP.end();
     in.sc[n] = v; in.version = next_version(); m.recent[m.sel].clear(); if (wild) in.wild = true;
     CAP.begin(); S back = masa_get_param<S>(n); CAP.end();
     if (!biteq(back, v)) hviol("C11", "set-get-roundtrip:" + in.sol, "masa_get_param(\"" + n + "\") returned " + sval(back) + " after masa_set_param(" + sval(v) + ")");
     if (!out.empty()) hviol("C11", "set-valid-printed:" + in.sol, "masa_set_param of a valid name printed: " + out.substr(0, 100));
     compare_selected(m, "C11", "set-leak", "after masa_set_param(\"" + n + "\")");
+    // the very next evaluation repeats the last call made BEFORE the change (same evaluator, same point): a cache keyed on
+    // the point alone shows up when a fresh handle with the new parameters disagrees
+    if (had_rec && g_focus == "purity" && R->coin() && !(in.sol == "sod_1d" && !kExceptions && in.wild)) {
+      const Ev& e = api()[last_rec.ev];
+      hist("masa_eval_" + e.id + "<" + P + "> repeated at the same point right after the parameter change on " + m.sel + ":" + in.sol);
+      std::string b2 = eval_bits(e, last_rec.a, last_rec.idx);
+      CNT.evals++;
+      Snap<S> sn = observe<S>(); in.sc = sn.sc; in.vec = sn.vec;
+      m.recent[m.sel].push_back(EvalRec{last_rec.ev, {last_rec.a[0], last_rec.a[1], last_rec.a[2], last_rec.a[3]}, last_rec.idx, b2});
+      twin();
+    }
   }
   void set_invalid() {
     std::string n = bad_name();
